@@ -544,7 +544,7 @@ SIter ==    \* for __item in __iterator: assign; after the loop _leave_assignmen
                /\ rep' = IF k = 1 THEN [rep EXCEPT ![r.ns[1]] = [len |-> Len(F.its), pos |-> F.it + 1]] ELSE rep
                /\ ctl' = SetF([F EXCEPT !.it = F.it + 1, !.st = NextStage(It, "rep"), !.j = 1])
                /\ UNCHANGED exc
-          ELSE /\ RaiseAt(tok, UnpackError(v))
+          ELSE /\ RaiseAt(Site(F.i, "rep", 0), UnpackError(v))    \* reported with the repeat expression
                /\ UNCHANGED <<envs, glob, rep, ctl>>
      ELSE /\ envs' = IF r.g THEN envs
                      ELSE SetAll(envs, r.ns, [m \in 1..k |-> Restored(r.ns[m], cells[CBkRep(F.i)].vs[m])], 1)
@@ -589,6 +589,8 @@ DictIdx(it) == { j \in 1..Len(it.dattr) : it.dattr[j].d }
 \* the name under which a prepared entry is emitted (statement spelling wins)
 PName(it, a) == IF a.dy > 0 THEN it.dattr[a.dy].n ELSE it.sattr[a.st].n
 KeysOf(v) == { v.kvs[n].k : n \in 1..Len(v.kvs) }
+\* attribute names are matched irrespective of case (lk: the key in lower case)
+LKeysOf(v) == { v.kvs[n].lk : n \in 1..Len(v.kvs) }
 \* Is the named entry at position pj overridden by an attribute dictionary?
 \* Language (C07): a *later source in statement order* wins.  The code lets
 \* every dictionary that stands later in the prepared list win, i.e. a
@@ -599,10 +601,10 @@ Suppressed(it, P, pj, i) ==
      /\ P[dj].dy > 0 /\ it.dattr[P[dj].dy].d
      /\ IF "DictOverridesByPosition" \in Dev THEN dj > pj
         ELSE P[dj].dy > P[pj].dy          \* statics have dy = 0: any dictionary is later
-     /\ PName(it, P[pj]) \in KeysOf(cells[CDict(i, P[dj].dy)])
+     /\ P[pj].key \in LKeysOf(cells[CDict(i, P[dj].dy)])
 \* names a dictionary at position dj must leave to later entries
 Excluded(it, P, dj) ==
-  { PName(it, P[n]) : n \in { n \in 1..Len(P) :
+  { P[n].key : n \in { n \in 1..Len(P) :
         ~(P[n].dy > 0 /\ it.dattr[P[n].dy].d) /\
         (IF "DictOverridesByPosition" \in Dev THEN n > dj ELSE P[n].dy > P[dj].dy) } }
 
@@ -611,7 +613,7 @@ Excluded(it, P, dj) ==
 \* DictDuplicatesAcrossDicts).
 LaterDictKeys(it, P, dj, i) ==
   IF "DictDuplicatesAcrossDicts" \in Dev THEN {}
-  ELSE UNION { KeysOf(cells[CDict(i, P[n].dy)]) :
+  ELSE UNION { LKeysOf(cells[CDict(i, P[n].dy)]) :
                n \in { n \in 1..Len(P) : n > dj /\ P[n].dy > 0 /\ it.dattr[P[n].dy].d } }
 
 SStag ==    \* visit_Start; Cache(filtering): attribute dictionaries are evaluated first
@@ -648,10 +650,10 @@ RECURSIVE DictAtoms(_, _, _, _, _)
 DictAtoms(i, v, n, excl, bools) ==
   IF n > Len(v.kvs) THEN <<>>
   ELSE LET kv == v.kvs[n]
-           skip == kv.k \in excl \/ kv.v = VNone \/ (kv.k \in bools /\ ~Truthy(kv.v))
+           skip == kv.lk \in excl \/ kv.v = VNone \/ (kv.lk \in bools /\ ~Truthy(kv.v))
        IN (IF skip THEN <<>>
            ELSE << [a |-> "kattr", i |-> i, k |-> kv.k,
-                    v |-> IF kv.k \in bools THEN [t |-> "str", s |-> kv.k] ELSE kv.v] >>)
+                    v |-> IF kv.lk \in bools THEN [t |-> "str", s |-> kv.k] ELSE kv.v] >>)
           \o DictAtoms(i, v, n + 1, excl, bools)
 
 SAttr ==    \* visit_Attribute / visit_DictAttributes
@@ -671,6 +673,10 @@ SAttr ==    \* visit_Attribute / visit_DictAttributes
                                         Excluded(It, P, F.j) \cup LaterDictKeys(It, P, F.j, F.i), prog.bools)
              /\ ctl' = nxt
              /\ UNCHANGED <<envs, glob, rep, cells, log, tok, exc>>
+        ELSE IF sup
+        THEN \* a later dictionary supplies the name: the expression is not evaluated
+             /\ ctl' = nxt
+             /\ UNCHANGED <<envs, glob, rep, cells, out, log, tok, exc>>
         ELSE LET d == It.dattr[a.dy]
                  K(v) ==
                    /\ ctl' = nxt
